@@ -39,30 +39,61 @@ struct netbuf_write {
 	void * fail_cookie;
 };
 
-/* ghost observation state (defined in models/http_env.c) */
-extern unsigned g_http_ncb;		/* invocations of the user's callback */
-extern int g_http_cb_null;		/* last invocation had response == NULL */
-extern int g_http_cb_status;		/* fields of the response seen by the last invocation */
-extern size_t g_http_cb_nheaders;
-extern size_t g_http_cb_bodylen;
-extern uint8_t * g_http_cb_body;
-extern void * g_http_cb_cookie;
-extern int g_http_cb_rv;		/* what the user's callback returns (chosen by the harness) */
-extern unsigned g_http_ncancel;		/* http_request_cancel calls (ghost statement in http.c) */
-extern unsigned g_http_ndie;		/* die() calls (ghost statement in http.c) */
-extern int g_http_envfail;		/* an environment call reported (allocation) failure: wait, write, init, connect */
-extern unsigned g_http_nclose;		/* close() calls */
-extern int g_http_closed_fd;
-extern unsigned g_http_nconncancel;	/* network_connect_cancel calls */
-extern unsigned g_http_nwaitcancel;	/* netbuf_read_wait_cancel calls */
-extern unsigned g_http_nrfree, g_http_nwfree, g_http_nsslclose;
-extern unsigned g_http_nwrite;		/* netbuf_write_write calls and their arguments, in order */
-extern const uint8_t * g_http_wbuf[2];
-extern size_t g_http_wlen[2];
-extern int g_http_wait_fail;		/* harness: may netbuf_read_wait fail? (always nondeterministic) */
-extern size_t g_http_i, g_http_j;	/* ghost indices (G1) */
-extern size_t g_http_fe_i, g_http_fe_j;	/* findeol's ghost positions (set by callers through ghost statements) */
-extern size_t g_http_eol;		/* ghost witness: position of an EOL (sgetline's requires) */
+/*
+ * ghost observation state (defined in models/http_env.c).  One struct, so that it is ONE object for cbmc: DFCC's
+ * write-set bookkeeping is proportional to 2^object-bits, and 30 separate globals push the groups over 256 objects.
+ */
+struct http_ghost {
+	unsigned ncb;			/* invocations of the user's callback */
+	int cb_null;			/* last invocation had response == NULL */
+	int cb_status;			/* fields of the response seen by the last invocation */
+	size_t cb_nheaders;
+	size_t cb_bodylen;
+	uint8_t * cb_body;
+	void * cb_cookie;
+	int cb_rv;			/* what the user's callback returns (chosen by the harness) */
+	unsigned ncancel;		/* http_request_cancel calls (ghost statement in http.c) */
+	unsigned ndie;			/* die() calls (ghost statement in http.c) */
+	int envfail;			/* an environment call reported (allocation) failure: wait, write, init, connect */
+	unsigned nclose;		/* close() calls */
+	int closed_fd;
+	unsigned nconncancel;		/* network_connect_cancel calls */
+	unsigned nwaitcancel;		/* netbuf_read_wait_cancel calls */
+	unsigned nrfree, nwfree, nsslclose;
+	unsigned nwrite;		/* netbuf_write_write calls and their arguments, in order */
+	const uint8_t * wbuf[2];
+	size_t wlen[2];
+	size_t i, j;			/* ghost indices (G1) */
+	size_t fe_i, fe_j;		/* findeol's ghost positions (set by callers through ghost statements) */
+	size_t eol;			/* ghost witness: position of an EOL (sgetline's requires) */
+};
+extern struct http_ghost g_http;
+#define g_http_ncb g_http.ncb
+#define g_http_cb_null g_http.cb_null
+#define g_http_cb_status g_http.cb_status
+#define g_http_cb_nheaders g_http.cb_nheaders
+#define g_http_cb_bodylen g_http.cb_bodylen
+#define g_http_cb_body g_http.cb_body
+#define g_http_cb_cookie g_http.cb_cookie
+#define g_http_cb_rv g_http.cb_rv
+#define g_http_ncancel g_http.ncancel
+#define g_http_ndie g_http.ndie
+#define g_http_envfail g_http.envfail
+#define g_http_nclose g_http.nclose
+#define g_http_closed_fd g_http.closed_fd
+#define g_http_nconncancel g_http.nconncancel
+#define g_http_nwaitcancel g_http.nwaitcancel
+#define g_http_nrfree g_http.nrfree
+#define g_http_nwfree g_http.nwfree
+#define g_http_nsslclose g_http.nsslclose
+#define g_http_nwrite g_http.nwrite
+#define g_http_wbuf g_http.wbuf
+#define g_http_wlen g_http.wlen
+#define g_http_i g_http.i
+#define g_http_j g_http.j
+#define g_http_fe_i g_http.fe_i
+#define g_http_fe_j g_http.fe_j
+#define g_http_eol g_http.eol
 
 int http_cb_stub(void *, struct http_response *);
 
